@@ -336,7 +336,8 @@ def run(tier, seed, t0):
         for w in spaces.shard_words(LETTERS, Lw, ""):
             cases.append({"kind": "word", "seq": w, "assignments": True, "allpads": tier != "quick"})
     # a few longer words so that kappa is defined and non-trivial in the quick tier too
-    for w in ["KEPGKE", "KKEEPPGG", "PGPGKEKE", "KEKEKGPGPG", "GGGKKKEEEPPP"]:
+    for w in ["KEPGKE", "KKEEPPGG", "PGPGKEKE", "KEKEKGPGPG", "GGGKKKEEEPPP", "GGGGGGGPGGGGGGGGKE", "KKKKKKKKKKKKKKEKKKKKKKPG",
+              "GGGGGGGGGGGGGGGGGGGGGGGGGGGKEP", "EEEEEEEEEEEEEEKEEEEEEEEEEEEEEEPG"]:
         cases.append({"kind": "word", "seq": w, "assignments": True})
     for w in spaces.shard_words(T.AA, 2, ""):
         cases.append({"kind": "word", "seq": w, "assignments": False})
